@@ -362,7 +362,7 @@ func vfMuxWith(rule *annotations.HttpRule, in, out *fakeMD, opts ...MuxOption) (
 
 // (from h_servehttp.go)
 func vfIsPlainQueryByte(c byte) bool {
-	return c < 0x80 && isPath(rune(c)) && c != '&' && c != ';' && c != '=' && c != '+' && c != '*' && c != '!' && c != '$' && c != '\'' && c != '(' && c != ')' && c != ',' && c != '@' && c != '~'
+	return c < 0x80 && refIsPathByte(c) && c != '&' && c != ';' && c != '=' && c != '+' && c != '*' && c != '!' && c != '$' && c != '\'' && c != '(' && c != ')' && c != ',' && c != '@' && c != '~'
 }
 
 // (from h_servehttp.go)
